@@ -19,12 +19,17 @@ EXPLANATION = (
     "Sequence(*self._data_seq[1:]); Run.__init__ overwrites the stub run on every normal exit and raises only "
     "LenaTypeError; (c) Source.__call__ returns self._tail.run(first()/first) when there is a tail and "
     "flow_to_iter(...) otherwise; (d) flatten appends in iteration order, one of extend/append per element.  "
+    "(e) Tree-wide: no function with a flow parameter pulls from the flow (the parameter or a lazy view of it: iter, islice, chain, zip, "
+    "map, a generator expression, el.run(flow)) inside a try whose handler swallows an exception other than StopIteration; and "
+    "flow_to_iter returns its argument unchanged only where it was found to have a next method.  "
     "Does not decide the yielded values nor associativity for arbitrary user elements.")
 RULES = {
     "C01-a": "FOLD: Sequence.run = wrap(fold(el.run over self._data_seq forwards, wrap(flow))) on every path",
     "C01-b": "TYPESTATE: constructors store only elements with a callable run / the given first element; failures raise LenaTypeError",
     "C01-c": "Source.__call__ feeds first()/first into the tail and does not skip a non-empty tail",
     "C01-d": "flatten keeps element order",
+    "C01-e": "TRANSPARENT ERRORS: no element of lena pulls from its incoming flow inside a try whose handler swallows anything but "
+             "StopIteration (the composition law needs an upstream exception to come out of the sequence as it is)",
 }
 SEQ = "lena.core.sequence"
 SRC = "lena.core.source"
@@ -360,7 +365,24 @@ def check_flatten(ctx):
             construct="flatten:%s" % ",".join(A.src_with(c, {el: "el", acc: "flattened"}) for c in calls), path=p)
 
 
+def check_transparent_errors(ctx):
+    hits = K.swallowed_pulls(ctx.tree, ctx.res)
+    for mod, fn, tr, h, x in hits:
+        ctx.violation("C01-e", tr, "%s pulls from its flow (`%s`) inside a try whose handler `except %s` does not re-raise: an exception of "
+                      "that kind raised by an earlier element of the sequence is swallowed there, so Sequence(a, b).run(flow) no "
+                      "longer equals b.run(a.run(flow)) seen from outside (the error vanishes and the flow is cut short)" % (
+                          A.qualname(fn), A.short(A.enclosing(x, (ast.stmt,)) or x, 50), A.src(h.type) if h.type is not None else ""),
+                      construct="swallowed-pull:%s" % A.qualname(fn))
+    n = sum(1 for m, fn in ctx.tree.functions() if "flow" in A.func_params(fn))
+    ctx.instances_floor("C01-e", n, 35, "flow-processing functions")
+    if not hits:
+        ctx.ok("C01-e", ("lena", "<tree>"), "%d flow-processing functions: no quiet handler covers a pull from the flow" % n)
+
+
 def check(ctx):
+    check_transparent_errors(ctx)
+    K.check_flow_to_iter(ctx, "C01-a", "Sequence.run and Source.__call__ promise an iterator whatever the input is, and elements "
+                         "that take the flow in pieces (islice, next) see the beginning of a re-iterable again and again")
     check_fold(ctx)
     check_constructors(ctx)
     check_source_call(ctx)
@@ -368,6 +390,7 @@ def check(ctx):
 
 
 VARIANTS = [
+    M("count-run-swallows-upstream-errors", "lena/flow/elements.py", "            except StopIteration:\n", "            except Exception:\n", ["C01-e"], nth=0),
     M("run-reversed", "lena/core/sequence.py", "        for el in self._data_seq:\n            flow = el.run(flow)", "        for el in reversed(self._data_seq):\n            flow = el.run(flow)", ["C01-a"]),
     M("run-skips-last", "lena/core/sequence.py", "        for el in self._data_seq:\n            flow = el.run(flow)", "        for el in self._data_seq[:-1]:\n            flow = el.run(flow)", ["C01-a"]),
     M("run-raw-input", "lena/core/sequence.py", "        flow = functions.flow_to_iter(flow)\n\n        for el in self._data_seq:", "        for el in self._data_seq:", ["C01-a"]),
